@@ -85,7 +85,10 @@ impl CommandAnalyzer {
             .parse_and_cache_all_files(project_path, verbose)?;
 
         // Extract commands from cached ASTs
-        let file_paths: Vec<PathBuf> = self.ast_cache.keys().cloned().collect();
+        // The cache is a HashMap: visit the files in path order so that the order of
+        // commands, events and (through them) generated declarations is reproducible
+        let mut file_paths: Vec<PathBuf> = self.ast_cache.keys().cloned().collect();
+        file_paths.sort();
         let mut commands = Vec::new();
         let mut type_names_to_discover = HashSet::new();
 
